@@ -19,10 +19,10 @@ ASSUMPTIONS = [
 
 
 def cases(tier):
-    out = [("dual", r) for r in range(300 if tier == "quick" else 10000)]
-    out += [("comp", r) for r in range(150 if tier == "quick" else 5000)]
-    out += [("unital", r) for r in range(100 if tier == "quick" else 3000)]
-    out += [("rectdual", r) for r in range(150 if tier == "quick" else 5000)]
+    out = [("dual", r) for r in range(300 if tier == "quick" else 60000)]
+    out += [("comp", r) for r in range(150 if tier == "quick" else 30000)]
+    out += [("unital", r) for r in range(100 if tier == "quick" else 20000)]
+    out += [("rectdual", r) for r in range(150 if tier == "quick" else 30000)]
     return out
 
 
